@@ -296,4 +296,158 @@ def Ty.deserialize (t : Ty) (bs : List Nat) : Option Val :=
   | some (v, _) => some v
   | none => none
 
+/-! ### large payloads: compact descriptions
+
+A payload of several hundred KiB is described to the model by a *compact value*: a spine through
+the payload type ending in `vec![v; n]` or in a `String` of `n` copies of one `char`.  `expand`
+is the value it stands for; `rope` is its encoding as a list of `(count, chunk)` pieces, so that
+length and checksum of the encoding can be computed without materialising it
+(`rope_bytes`, `Rope.len_eq`, `Rope.ck_eq` in `Props/C35.lean`). -/
+
+def Vals.append : Vals → Vals → Vals
+  | .nil, ws => ws
+  | .cons v vs, ws => .cons v (vs.append ws)
+
+def Vals.replicate : Nat → Val → Vals
+  | 0, _ => .nil
+  | n + 1, v => .cons v (Vals.replicate n v)
+
+/-- `n` copies of a chunk of bytes -/
+def repBytes : Nat → List Nat → List Nat
+  | 0, _ => []
+  | n + 1, c => c ++ repBytes n c
+
+inductive CVal where
+  | rep (n : Nat) (v : Val)                      -- `vec![v; n]`
+  | srep (n : Nat) (c : Nat)                     -- the `String` of `n` copies of the char `c`
+  | some (c : CVal)
+  | variant (k : Nat) (c : CVal)
+  | tupAt (pre : Vals) (c : CVal) (post : Vals)  -- tuple / struct with one compact field
+  | vecAt (pre : Vals) (c : CVal) (post : Vals)  -- `Vec` with one compact element
+
+def CVal.expand : CVal → Val
+  | .rep n v => .vec (Vals.replicate n v)
+  | .srep n c => .str (repBytes n (encodeChar c))
+  | .some c => .some c.expand
+  | .variant k c => .variant k c.expand
+  | .tupAt pre c post => .tup (pre.append (.cons c.expand post))
+  | .vecAt pre c post => .vec (pre.append (.cons c.expand post))
+
+/-- pieces `(count, chunk)`: the bytes are `count` copies of `chunk`, piece after piece -/
+abbrev Rope := List (Nat × List Nat)
+
+def Rope.bytes : Rope → List Nat
+  | [] => []
+  | (n, c) :: r => repBytes n c ++ Rope.bytes r
+
+def CVal.rope : CVal → Rope
+  | .rep n v => [(1, encLE 8 n), (n, v.encode)]
+  | .srep n c => [(1, encLE 8 (n * (encodeChar c).length)), (n, encodeChar c)]
+  | .some c => (1, [1]) :: c.rope
+  | .variant k c => (1, encLE 4 k) :: c.rope
+  | .tupAt pre c post => (1, pre.encodeAll) :: (c.rope ++ [(1, post.encodeAll)])
+  | .vecAt pre c post =>
+    (1, encLE 8 (pre.length + (post.length + 1)) ++ pre.encodeAll) :: (c.rope ++ [(1, post.encodeAll)])
+
+/-- position-sensitive checksum of a byte string (what harness and driver print instead of the bytes) -/
+def ckStep (h b : Nat) : Nat := (h * 31 + b + 1) % 4294967291
+def ck (h : Nat) : List Nat → Nat
+  | [] => h
+  | b :: bs => ck (ckStep h b) bs
+def ckRep (h : Nat) : Nat → List Nat → Nat
+  | 0, _ => h
+  | n + 1, c => ckRep (ck h c) n c
+def Rope.ck (h : Nat) : Rope → Nat
+  | [] => h
+  | (n, c) :: r => Rope.ck (ckRep h n c) r
+def Rope.len : Rope → Nat
+  | [] => 0
+  | (n, c) :: r => n * c.length + Rope.len r
+
+/-- the types of the fields after a well-typed prefix of a tuple -/
+def Vals.wtPrefix : Vals → Tys → Option Tys
+  | .nil, ts => Option.some ts
+  | .cons v vs, .cons t ts => if v.wt t then vs.wtPrefix ts else Option.none
+  | .cons _ _, .nil => Option.none
+
+/-- typing of a compact value, decided without expanding it (`CVal.wt_expand`) -/
+def CVal.wt : CVal → Ty → Bool
+  | .rep n v, .vec t => (n == 0 || v.wt t) && decide (n < 256 ^ 8)
+  | .srep n c, .str => isScalar c && decide (n * (encodeChar c).length < 256 ^ 8)
+  | .some c, .opt t => c.wt t
+  | .variant k c, .enm ts =>
+    decide (k < 256 ^ 4) &&
+    (match ts.nth k with
+     | Option.some t => c.wt t
+     | Option.none => false)
+  | .tupAt pre c post, .tup ts =>
+    (match pre.wtPrefix ts with
+     | Option.some (.cons t rest) => c.wt t && post.wtTup rest
+     | _ => false)
+  | .vecAt pre c post, .vec t =>
+    pre.wtAll t && c.wt t && post.wtAll t && decide (pre.length + (post.length + 1) < 256 ^ 8)
+  | _, _ => false
+
+/-! ### the bincode configuration (`bincode::config::Options`, bincode 1.3)
+
+The codec above is one point of bincode's configuration space.  `Config.ofChain` reads a call
+chain as it appears after `bincode::` in the generated closures (the chains are re-extracted from
+`networking.rs` into `Gen/Networking.lean` on every run) and returns direction and configuration;
+`Props/C35.lean` proves that every extracted chain denotes `Config.model`. -/
+
+structure Config where
+  fixint : Bool          -- `FixintEncoding` (true) / `VarintEncoding`
+  little : Bool          -- `LittleEndian` (true) / `BigEndian`
+  limited : Bool         -- `Bounded(_)` (true) / `Infinite`
+  allowTrailing : Bool   -- `AllowTrailing` (true) / `RejectTrailing`
+deriving DecidableEq, Repr
+
+/-- `DefaultOptions::new()` (= `bincode::options()`): unlimited, little endian, varint, reject trailing -/
+def Config.default : Config := ⟨false, true, false, false⟩
+/-- the configuration this file implements: fixed-width ints, little endian, no limit, trailing bytes allowed -/
+def Config.model : Config := ⟨true, true, false, true⟩
+
+/-- the functions / methods of the bincode 1.3 API that can appear in a call chain -/
+inductive Call where
+  | serialize | deserialize | options | defaultOptionsNew
+  | withFixint | withVarint | withLittle | withBig | withNative
+  | withLimit | withNoLimit | allowTrailing | rejectTrailing
+  | serializeInto | deserializeFrom | serializedSize | other
+deriving DecidableEq, Repr
+
+inductive Dir where
+  | ser | de
+deriving DecidableEq, Repr
+
+def Config.set (c : Config) : Call → Option Config
+  | .withFixint => some { c with fixint := true }
+  | .withVarint => some { c with fixint := false }
+  | .withLittle => some { c with little := true }
+  | .withBig => some { c with little := false }
+  | .withLimit => some { c with limited := true }
+  | .withNoLimit => some { c with limited := false }
+  | .allowTrailing => some { c with allowTrailing := true }
+  | .rejectTrailing => some { c with allowTrailing := false }
+  | _ => none    -- `with_native_endian` (target dependent) and everything that is not an option setter
+
+/-- option setters, then the terminal method -/
+def Config.run (c : Config) : List Call → Option (Dir × Config)
+  | [.serialize] => some (.ser, c)
+  | [.deserialize] => some (.de, c)
+  | [.deserializeFrom] => some (.de, c)
+  | s :: rest =>
+    match c.set s with
+    | some c' => Config.run c' rest
+    | none => none
+  | [] => none
+
+/-- a whole chain: the free functions `bincode::serialize` / `bincode::deserialize` are
+`DefaultOptions::new().with_fixint_encoding().allow_trailing_bytes().serialize / .deserialize` -/
+def Config.ofChain : List Call → Option (Dir × Config)
+  | [.serialize] => Config.run Config.default [.withFixint, .allowTrailing, .serialize]
+  | [.deserialize] => Config.run Config.default [.withFixint, .allowTrailing, .deserialize]
+  | .options :: rest => Config.run Config.default rest
+  | .defaultOptionsNew :: rest => Config.run Config.default rest
+  | _ => none
+
 end HvNet
